@@ -58,7 +58,17 @@ def generate(seed, mode="c18", opts=None):
         elif k == "elaborate":
             ops.append(["elaborate"])
             elaborated = True
-    return {"profile": "ns", "mode": mode, "seed": seed, "target": target, "ops": ops, "sched": [ch.pick(seams.POLICIES, "policy"), 0]}
+    sched = [ch.pick(seams.POLICIES, "policy"), 0]
+    # the class-style twin of the final content: some values already carry a name (their key's or
+    # another), and the body holds underscore-prefixed temporaries, HDL-valued ones included
+    cls = {"pre": {}, "tmp": []}
+    if ch.chance(1, 2):
+        for nm in NAMES:
+            if ch.chance(1, 3):
+                cls["pre"][nm] = ch.pick([nm, nm, "q"] + NAMES, "prename")
+        for _ in range(ch.pick([0, 0, 1, 2], "ntmp")):
+            cls["tmp"].append(ch.pick(kinds + ["int", "str"], "tmpkind"))
+    return {"profile": "ns", "mode": mode, "seed": seed, "target": target, "ops": ops, "sched": sched, "cls": cls}
 
 
 def make_value(h, env, kind, width):
@@ -280,10 +290,24 @@ def execute(scn):
                 raise StopIteration
             edited = [m for m in pkg.modules if m.name.endswith("Edited")][0]
             body = {}
+            cv_ = scn.get("cls") or {"pre": {}, "tmp": []}
             for name, (vk, _val) in model.items():
                 body[name] = make_value(h, env, vk, _val.width if isinstance(_val, h.Signal) else (_val.n if vk == "arr" else 1))
+                if cv_["pre"].get(name):
+                    body[name].name = cv_["pre"][name]
+                    probe("class_body_prenamed" + ("_same" if cv_["pre"][name] == name else "_other"))
+            for ti, tk in enumerate(cv_["tmp"]):
+                body[f"_t{ti}"] = 7 if tk == "int" else ("x" if tk == "str" else make_value(h, env, tk, 2))
+                probe("class_body_temporary" + ("" if tk in ("int", "str") else "_hdl"))
             cls = type("ClassStyle", (), body)
-            ref = h.module(cls)
+            try:
+                ref = h.module(cls)
+            except Exception as e:  # noqa
+                fail("class-style-refused", f"class body {sorted(body)} (preset names {cv_['pre']}) raised {interp.norm_exc(e)}; the same assignments were accepted one by one")
+                raise StopIteration
+            if set(ref.namespace.keys()) != set(model.keys()):
+                fail("class-style-namespace", f"class-style namespace {sorted(ref.namespace.keys())} != procedural {sorted(model.keys())}")
+                raise StopIteration
             rpkg = h.to_proto(ref)
             rmod = [m for m in rpkg.modules if m.name.endswith("ClassStyle")][0]
             if canon_module(edited) != canon_module(rmod):
@@ -295,6 +319,24 @@ def execute(scn):
         except Exception as e:  # noqa
             probe("final_export_refused")
             res["final_exc"] = interp.norm_exc(e)
+    if target == "bundle" and c18_clean:
+        cv_ = scn.get("cls") or {"pre": {}, "tmp": []}
+        body = {}
+        for name, (vk, _val) in model.items():
+            body[name] = make_value(h, env, vk, _val.width if isinstance(_val, h.Signal) else 1)
+            if cv_["pre"].get(name):
+                body[name].name = cv_["pre"][name]
+        for ti, tk in enumerate(cv_["tmp"]):
+            body[f"_t{ti}"] = 7 if tk == "int" else ("x" if tk == "str" else make_value(h, env, tk, 2))
+        shape = lambda b: sorted((n, type(v).__name__, (v.width, str(v.vis)) if isinstance(v, h.Signal) else v.of.name) for n, v in b.namespace.items())
+        try:
+            ref = h.bundle(type("ClassStyleB", (), body))
+            if shape(ref) != shape(obj) or any(v.name != n for n, v in ref.namespace.items()):
+                fail("class-style-namespace", f"class-style bundle {shape(ref)} != procedural {shape(obj)}")
+            else:
+                probe("bundle_equals_class_style")
+        except Exception as e:  # noqa
+            fail("class-style-refused", f"bundle class body {sorted(body)} (preset names {cv_['pre']}) raised {interp.norm_exc(e)}")
     res["nontrivial"] = len(model) >= 2
     res["sig"] = hash64(str(scn["ops"]), target)
     res["sched"] = seams.get_sched().stats()
